@@ -123,6 +123,7 @@ type pworld struct {
 	events    map[int][]byte
 	ids       []int
 	nEvents   int
+	runIdx    int // index of the materialisation being run (`srcv` sources read their contents for it at Open)
 }
 
 func (w *pworld) ev(r int, c byte) {
@@ -172,6 +173,8 @@ type probeSrc struct {
 	r   int
 	xs  []int64
 	idx int
+	// `srcv`: the contents during the i-th materialisation of the case (the last entry repeats); read at Open
+	variants [][]int64
 }
 
 func (p *probeSrc) Open(ctx context.Context) error {
@@ -186,6 +189,13 @@ func (p *probeSrc) Open(ctx context.Context) error {
 		return err
 	}
 	p.idx = 0
+	if p.variants != nil {
+		i := p.w.runIdx
+		if i >= len(p.variants) {
+			i = len(p.variants) - 1
+		}
+		p.xs = p.variants[i]
+	}
 	p.w.ev(p.r, 'O')
 	return nil
 }
@@ -377,6 +387,17 @@ func (p *pparser) pipe() stream.Stream[pv] {
 			p.err = err
 		}
 		return stream.NewStream[pv](&probeSrc{w: w, r: r, xs: xs})
+	case "srcv":
+		r := p.int()
+		var vs [][]int64
+		for _, alt := range strings.Split(p.next(), "|") {
+			xs, err := parseInts(alt)
+			if err != nil && p.err == nil {
+				p.err = err
+			}
+			vs = append(vs, xs)
+		}
+		return stream.NewStream[pv](&probeSrc{w: w, r: r, xs: vs[0], variants: vs})
 	case "lc":
 		r := p.int()
 		return p.pipe().WithAdditionalLifecycle(&probeLc{w: w, r: r})
@@ -863,7 +884,8 @@ func execPipe(caseText string) (obs string) {
 	}
 	pre := w.nEvents + w.calls
 	var outs []string
-	for _, run := range parts[1:] {
+	for runIdx, run := range parts[1:] {
+		w.runIdx = runIdx
 		f := strings.Fields(run)
 		// optional 4th token `nw`: do not wait for the library's goroutines after this run (the next materialisation
 		// starts while goroutines of this one may still be winding down)
